@@ -6,11 +6,12 @@ inside those code objects and raises the planned exception at the k-th one - the
 frame exactly as a KeyboardInterrupt delivered at that bytecode would.  Counting is a pure function of the executed code path,
 so an injection point (k) is reproducible."""
 import sys
+import threading
 import types
 
 TOOL = 5
 _done = set()
-_state = {"armed": False, "k": 0, "n": 0, "exc": KeyboardInterrupt, "fired_in": None}
+_state = {"armed": False, "k": 0, "n": 0, "exc": KeyboardInterrupt, "fired_in": None, "tid": None}
 
 
 def _nested(code):
@@ -22,8 +23,8 @@ def _nested(code):
 
 def _on_instruction(code, offset):
     st = _state
-    if not st["armed"]:
-        return
+    if not st["armed"] or st["tid"] != threading.get_ident():
+        return             # (only the thread that armed the injection is hit: simulated tasks are real threads that run one at a time)
     st["n"] += 1
     if st["n"] == st["k"]:
         st["armed"] = False
@@ -46,9 +47,18 @@ def instrument(functions):
     return True
 
 
+def _quiet_unraisable(unraisable):
+    # an injection that lands while a dropped generator is being finalised cannot propagate (Python reports it as "Exception ignored");
+    # nothing to see there, and nothing to print
+    if isinstance(unraisable.exc_value, _state["exc"]):
+        return
+    sys.__unraisablehook__(unraisable)
+
+
 def arm(k, exc=KeyboardInterrupt):
     """The k-th instruction (k >= 1) executed from now on inside the instrumented code raises exc()."""
-    _state.update(armed=True, k=k, n=0, exc=exc, fired_in=None)
+    sys.unraisablehook = _quiet_unraisable
+    _state.update(armed=True, k=k, n=0, exc=exc, fired_in=None, tid=threading.get_ident())
 
 
 def disarm():
@@ -56,4 +66,5 @@ def disarm():
     instrumented instructions were executed while armed."""
     fired, n = _state["fired_in"], _state["n"]
     _state.update(armed=False, fired_in=None)
+    sys.unraisablehook = sys.__unraisablehook__
     return fired, n
